@@ -139,7 +139,7 @@ class C08(Prop):
         "digitize_textize_digitize", "textize_canonical_spelling", "revcomp_spec", "revcomp_involutive",
         "avg_score_is_mean", "avg_score_nonresidue", "expect_score_is_weighted_mean", "count_splits_equally", "degen_set_examples",
         "custom_create_wf", "custom_alphabets_wf", "custom_digitize_textize_digitize",
-        "dsqcat_spec", "dsqcat_appends_digitization", "std_inmap_clean", "sq_text_complement_table", "sq_text_revcomp_agrees", "cdealign_spec", "xdealign_spec", "custom_create_wfdegen", "custom_inmap_ops_keep_degen",
+        "dsqcat_spec", "dsqcat_appends_digitization", "std_inmap_clean", "sq_text_complement_table", "sq_text_revcomp_agrees", "cdealign_spec", "xdealign_spec", "custom_create_wfdegen", "custom_inmap_ops_keep_degen", "match_formula", "match_easy_cases",
     )]
     claimed = True
     technique = ("Lean 4 proof: table theorems closed by `decide` over the whole regenerated tables (vs a hand-written IUPAC statement), "
